@@ -287,6 +287,25 @@ impl ScannerConfig {
         }
 
         let class_safe: Vec<String> = atoms.iter().map(|a| class_safe_atom(a)).collect();
+        if atoms.len() == 3 && !(atoms[0] == atoms[1] && atoms[1] == atoms[2]) {
+            // The simple prefix based construction below is only correct if a failed partial
+            // match of the end can't be the start of a new one (e.g. "--->" for "-->").
+            // Build the expression from the matching automaton of the end instead.
+            let (a, b, c) = (&atoms[0], &atoms[1], &atoms[2]);
+            let (ca, cb, cc) = (&class_safe[0], &class_safe[1], &class_safe[2]);
+            return Ok(if a == b {
+                // aac
+                format!(r"{s}([^{ca}]|{a}[^{ca}]|{a}{a}{a}*[^{ca}{cc}])*{a}{a}{a}*{c}")
+            } else if a == c {
+                // aba
+                format!(r"{s}([^{ca}]|{a}+([^{ca}{cb}]|{b}[^{ca}]))*{a}+{b}{a}")
+            } else {
+                // abc, abb
+                format!(
+                    r"{s}([^{ca}]|{a}({a}|{b}{a})*([^{ca}{cb}]|{b}[^{ca}{cc}]))*{a}({a}|{b}{a})*{b}{c}"
+                )
+            });
+        }
         let mut alternatives = Vec::with_capacity(atoms.len());
         alternatives.push(format!(r"[^{}]", class_safe[0]));
         for i in 1..atoms.len() {
